@@ -156,19 +156,19 @@ func checkC01(c *Ctx) (string, []string) {
 	lx4 := "min(4, (" + b1 + " % 8))"
 	lx11 := "min(4, (" + b2 + " % 8))"
 	specs := map[string]spec{
-		"getRegModIndex":   {regs: map[string]string{"ret": rMod}},
-		"getRegFloorIndex": {regs: map[string]string{"ret": rFloor}},
-		"decodeOneImmediate": {clamps: []string{"min(4, p2)"}, sext: true},
-		"decodeTwoImmediates": {clamps: []string{lx4, "min(4, max(0, ((p2 - u32(" + lx4 + ")) - 1)))"}, sext: true},
-		"decodeOneOffset":     {clamps: []string{"min(4, p2)"}, sext: true},
-		"decodeOneRegisterAndOneImmediate": {regs: map[string]string{"ret#0": rMod}, clamps: []string{"min(4, max(0, (p2 - 1)))"}, sext: true},
-		"decodeOneRegisterAndTwoImmediates": {regs: map[string]string{"ret#0": "i8(" + rMod + ")"}, clamps: []string{lx7, "min(4, max(0, ((p2 - " + lx7 + ") - 1)))"}, sext: true},
+		"getRegModIndex":                            {regs: map[string]string{"ret": rMod}},
+		"getRegFloorIndex":                          {regs: map[string]string{"ret": rFloor}},
+		"decodeOneImmediate":                        {clamps: []string{"min(4, p2)"}, sext: true},
+		"decodeTwoImmediates":                       {clamps: []string{lx4, "min(4, max(0, ((p2 - u32(" + lx4 + ")) - 1)))"}, sext: true},
+		"decodeOneOffset":                           {clamps: []string{"min(4, p2)"}, sext: true},
+		"decodeOneRegisterAndOneImmediate":          {regs: map[string]string{"ret#0": rMod}, clamps: []string{"min(4, max(0, (p2 - 1)))"}, sext: true},
+		"decodeOneRegisterAndTwoImmediates":         {regs: map[string]string{"ret#0": "i8(" + rMod + ")"}, clamps: []string{lx7, "min(4, max(0, ((p2 - " + lx7 + ") - 1)))"}, sext: true},
 		"decodeOneRegisterOneImmediateAndOneOffset": {regs: map[string]string{"ret#0": rMod}, clamps: []string{lx8, "min(4, max(0, ((p2 - u32(" + lx8 + ")) - 1)))"}, sext: true},
-		"decodeTwoRegisters": {regs: map[string]string{"ret#0": "PVM.getRegModIndex(p0, p1)", "ret#1": "PVM.getRegFloorIndex(p0, p1)"}},
-		"decodeTwoRegistersAndOneImmediate": {regs: map[string]string{"ret#0": "min(12, (15 & " + b1 + "))", "ret#1": rFloor}, clamps: []string{"min(4, max(0, (p2 - 1)))"}, sext: true},
-		"decodeTwoRegistersAndOneOffset":    {regs: map[string]string{"ret#0": rMod, "ret#1": rFloor}, clamps: []string{"min(4, max(0, (p2 - 1)))"}, sext: true},
-		"decodeTwoRegistersAndTwoImmediates": {regs: map[string]string{"ret#0": rMod, "ret#1": rFloor}, clamps: []string{lx11, "min(4, max(0, ((p2 - u32(" + lx11 + ")) - 2)))"}, sext: true},
-		"decodeThreeRegisters": {regs: map[string]string{"ret#0": "PVM.getRegModIndex(p0, p1)", "ret#1": "PVM.getRegFloorIndex(p0, p1)", "ret#2": "min(12, " + b2 + ")"}},
+		"decodeTwoRegisters":                        {regs: map[string]string{"ret#0": "PVM.getRegModIndex(p0, p1)", "ret#1": "PVM.getRegFloorIndex(p0, p1)"}},
+		"decodeTwoRegistersAndOneImmediate":         {regs: map[string]string{"ret#0": "min(12, (15 & " + b1 + "))", "ret#1": rFloor}, clamps: []string{"min(4, max(0, (p2 - 1)))"}, sext: true},
+		"decodeTwoRegistersAndOneOffset":            {regs: map[string]string{"ret#0": rMod, "ret#1": rFloor}, clamps: []string{"min(4, max(0, (p2 - 1)))"}, sext: true},
+		"decodeTwoRegistersAndTwoImmediates":        {regs: map[string]string{"ret#0": rMod, "ret#1": rFloor}, clamps: []string{lx11, "min(4, max(0, ((p2 - u32(" + lx11 + ")) - 2)))"}, sext: true},
+		"decodeThreeRegisters":                      {regs: map[string]string{"ret#0": "PVM.getRegModIndex(p0, p1)", "ret#1": "PVM.getRegFloorIndex(p0, p1)", "ret#2": "min(12, " + b2 + ")"}},
 	}
 	var names []string
 	for n := range specs {
